@@ -603,7 +603,42 @@ def run(ctx):
         "NumPy primitives behave as modelled (pad, correlate, convolve, slicing, concatenate, stack, reshape)",
         "non-mutation of the caller's array and absence of aliasing are run-time facts: differential part only",
     ]
+    float_path_oracle(ctx)
     return C.finish(ctx, "proof")
+
+
+def float_path_oracle(ctx):
+    """Outside the model's five pad modes: "intermediate values are calculated with 64-bit
+    floats, then cast back to the input data type" - for integer input and ANY np.pad mode
+    (also ones whose pad values are not integers) the result must equal the float64 run cast
+    to the input dtype."""
+    C.ensure_impl_path()
+    import numpy as np
+    from pydrobert.speech import post
+
+    r = ctx.rng
+    nprng = np.random.RandomState(ctx.seed + 31)
+    modes = [("mean", {}), ("linear_ramp", {}), ("constant", {"constant_values": 0.5}), ("median", {}), ("maximum", {}),
+             ("edge", {}), ("reflect", {}), ("symmetric", {})]
+    for rep in range(ctx.scale(60, 600)):
+        mode, kw = r.choice(modes)
+        dt = r.choice([np.int16, np.int32, np.int64])
+        T, F = r.randint(4, 9), r.randint(1, 3)
+        x = nprng.randint(-50, 50, size=(T, F)).astype(dt)
+        nd, cw = r.randint(1, 2), r.randint(1, 2)
+        d = post.Deltas(nd, concatenate=r.random() < 0.5, context_window=cw, pad_mode=mode, **kw)
+        try:
+            got = d.apply(x, axis=0)
+            ref = d.apply(x.astype(np.float64), axis=0).astype(dt)
+        except ValueError:
+            continue  # e.g. reflect on too short an axis
+        ctx.count("floatpath:%s" % mode)
+        ctx.case(dict(kind="float-path", mode=mode, dtype=str(np.dtype(dt)), shape=[T, F], num_deltas=nd, context_window=cw), nontrivial=True)
+        if got.dtype != x.dtype or got.shape != ref.shape or not np.array_equal(got, ref):
+            ctx.fail("Deltas.apply on integer features differs from the float64 computation cast back to the input dtype",
+                     dict(pad_mode=mode, pad_kwargs=kw, dtype=str(np.dtype(dt)), x=x.tolist(), num_deltas=nd, context_window=cw,
+                          got=got.tolist(), expected=ref.tolist()), kind="impl")
+            break
 
 
 def replay(ctx, rp):
